@@ -14,9 +14,10 @@
   src/aioquic/h3/connection.py by checks/c15.py).  Spec: AQ.Model.H3ValidateSpec
   (`WellFormed`, written from the text above).
 
+  Fixed in /repo 4067c72: a block whose content-length headers declare
+  different integers is now rejected (`differing_content_length_rejected`).
+
   Findings (true of the code, see the `_counterexample` theorems below):
-  * several `content-length` headers with different values are accepted; the
-    last one is the one enforced;
   * a FIN that follows a PUSH_PROMISE / unknown-type frame, or that arrives
     inside a DATA frame (the "DATA frame fragment" shortcut), produces neither
     an event with `stream_ended = True` nor a content-length check.
@@ -79,16 +80,19 @@ theorem validate_error_code (kind : Kind) (hs : Headers) (e : Err)
 
 /-- Exact characterisation: accepted ⇔ well-formed and the extra checks of the
     code hold — (1) a colon only as first byte of a name, (2) every
-    content-length value is accepted by `int()` and non-negative, (3)
-    transfer-encoding is `trailers`, (4) the code's required pseudo-headers
-    (`:method` and `:authority` on requests, `:status` on responses, all of
-    `:method :scheme :authority :path` on push promises), (5) `:scheme` http or
-    https implies non-empty `:authority` and `:path`. -/
+    content-length value is accepted by `int()` and non-negative, (3) all
+    content-length headers of the block declare the same integer
+    (`allDeclaredCL`, see `declared_content_lengths`), (4) transfer-encoding is
+    `trailers`, (5) the code's required pseudo-headers (`:method` and
+    `:authority` on requests, `:status` on responses, all of `:method :scheme
+    :authority :path` on push promises), (6) `:scheme` http or https implies
+    non-empty `:authority` and `:path`. -/
 theorem validate_exact (kind : Kind) (hs : Headers) :
     (∃ r, validate kind hs = .ok r) ↔
       WellFormed kind hs ∧
       (∀ h ∈ hs, (0x3A : UInt8) ∉ h.1.tail) ∧
       (∀ h ∈ hs, h.1 = bContentLength → ∃ n : Int, pyIntOfBytes h.2 = some n ∧ 0 ≤ n) ∧
+      (∀ a ∈ allDeclaredCL hs, ∀ b ∈ allDeclaredCL hs, a = b) ∧
       (∀ h ∈ hs, h.1 = bTransferEncoding → h.2 = bTrailers) ∧
       (∀ n ∈ requiredPseudo kind, n ∈ names hs) ∧
       (∀ sch, (bScheme, sch) ∈ hs → sch = bHttp ∨ sch = bHttps →
@@ -100,9 +104,16 @@ theorem validate_exact (kind : Kind) (hs : Headers) :
   · rintro ⟨hw, he⟩
     exact ⟨_, (validateOn_ok_iff kind none hs _).2 ⟨hw, he, rfl⟩⟩
 
+/-- `allDeclaredCL hs` lists exactly the integers declared by the
+    content-length headers of `hs`. -/
+theorem declared_content_lengths (hs : Headers) (n : Nat) :
+    n ∈ allDeclaredCL hs ↔ ∃ h ∈ hs, h.1 = bContentLength ∧ pyIntOfBytes h.2 = some (n : Int) :=
+  mem_allDeclaredCL hs n
+
 /-- The content-length an accepted request/response block leaves in
-    `stream.expected_content_length` is the value of its *last*
-    content-length header; trailers and push promises record nothing. -/
+    `stream.expected_content_length` is the value of its content-length
+    headers (`declaredCL` = the last, all being equal); trailers and push
+    promises record nothing. -/
 theorem validate_result (kind : Kind) (hs : Headers) (r : Option Nat)
     (h : validate kind hs = .ok r) :
     r = (if hasStream kind = true then declaredCL hs else none) := by
@@ -168,13 +179,13 @@ theorem bad_push_promise_closes (s : St) (hs : Headers) (fin : Bool) (hd : s.don
 /-- "when a stream ends, a declared content-length equals the number of body
     bytes delivered": for every sequence of inputs on a fresh request or push
     stream and every prefix `p` of the reported events that ends with an event
-    with `stream_ended = True`: if the first `HeadersReceived` of `p` declared
-    content-length `n` (its last content-length header), the `DataReceived`
-    events of `p` carry exactly `n` bytes. -/
+    with `stream_ended = True`: if ANY content-length header of the first
+    `HeadersReceived` of `p` declares `n`, the `DataReceived` events of `p`
+    carry exactly `n` bytes. -/
 theorem content_length_checked (isClient isPush : Bool) (ops : List Op) (p : List Event)
     (hp : p <+: trace { isClient := isClient, isPush := isPush } ops)
     (ev : Event) (hlast : p.getLast? = some ev) (hend : ev.ended = true)
-    (hs0 : Headers) (n : Nat) (hfirst : firstHeaders p = some hs0) (hdecl : declaredCL hs0 = some n) :
+    (hs0 : Headers) (n : Nat) (hfirst : firstHeaders p = some hs0) (hdecl : n ∈ allDeclaredCL hs0) :
     bodyBytes p = n := by
   have := (trace_good ops (good_init isClient isPush)).2
   simp only [List.nil_append] at this
@@ -199,16 +210,29 @@ theorem fin_on_body_checked_partial (s : St) (op : Op) (hd : s.done = false)
 
 /-! ### concrete inputs on which the property's content-length clause fails -/
 
-/-- FINDING: `content-length: 5` followed by `content-length: 3` is accepted and
-    only the last one is recorded, so a 3-byte body ends the stream cleanly
-    although 5 bytes were also declared. -/
-theorem duplicate_content_length_counterexample :
-    validate .response [hStatus200, hCL [0x35], hCL [0x33]] = .ok (some 3) ∧
-    allDeclaredCL [hStatus200, hCL [0x35], hCL [0x33]] = [5, 3] ∧
-    trace { isClient := true, isPush := false }
-      [.hdr [hStatus200, hCL [0x35], hCL [0x33]] false, .data 3 3 true]
-      = [.headers [hStatus200, hCL [0x35], hCL [0x33]] false, .data 3 true] := by
-  decide +kernel
+/-- FIXED (4067c72): `content-length: 5` followed by `content-length: 3` is
+    rejected for every kind of block, and on a stream it closes the connection
+    with H3_MESSAGE_ERROR; repeating the same integer (`3` and `+3`) is accepted. -/
+theorem differing_content_length_rejected :
+    (∀ kind, validate kind (GOODPREFIX kind ++ [hCL [0x35], hCL [0x33]]) = .error (.h3 0x10E)) ∧
+    validate .response [hStatus200, hCL [0x33], hCL [0x2B, 0x33]] = .ok (some 3) ∧
+    step { isClient := true, isPush := false } (.hdr [hStatus200, hCL [0x35], hCL [0x33]] false)
+      = ({ isClient := true, isPush := false, done := true }, [], some (.h3 0x10E)) := by
+  refine ⟨fun kind => ?_, ?_, ?_⟩
+  · cases kind <;> decide +kernel
+  · decide +kernel
+  · decide +kernel
+
+/-- For ALL blocks: two content-length headers declaring different integers
+    make every validator raise `MessageError`. -/
+theorem differing_content_length_rejected_all (kind : Kind) (hs : Headers) (a b : Nat)
+    (ha : a ∈ allDeclaredCL hs) (hb : b ∈ allDeclaredCL hs) (hab : a ≠ b) :
+    validate kind hs = .error (.h3 0x10E) := by
+  cases hv : validate kind hs with
+  | error e => rw [validateOn_err _ _ _ _ hv]; rfl
+  | ok r =>
+    have := ((validateOn_ok_iff kind none hs r).1 hv).2.1.2.2.1
+    exact absurd (this a ha b hb) hab
 
 /-- FINDING: HEADERS (content-length: 5), then an unknown-type frame carrying
     the FIN: the stream has ended with 0 of 5 bytes, the connection stays open,
@@ -256,7 +280,7 @@ example :
     let tr := trace { isClient := false, isPush := false }
       [.hdr [hMethodGet, hAuthorityX, hCL [0x33]] false, .data 3 1 false, .frag 2 true]
     tr <+: tr ∧ tr.getLast? = some (.data 2 true) ∧ firstHeaders tr = some [hMethodGet, hAuthorityX, hCL [0x33]] ∧
-      declaredCL [hMethodGet, hAuthorityX, hCL [0x33]] = some 3 ∧ bodyBytes tr = 3 := by
+      3 ∈ allDeclaredCL [hMethodGet, hAuthorityX, hCL [0x33]] ∧ bodyBytes tr = 3 := by
   decide +kernel
 /-- and a mismatch closes the connection -/
 example :
@@ -286,7 +310,9 @@ end AQ.Props.C15
 #print axioms AQ.Props.C15.content_length_checked
 #print axioms AQ.Props.C15.content_length_error_code
 #print axioms AQ.Props.C15.fin_on_body_checked_partial
-#print axioms AQ.Props.C15.duplicate_content_length_counterexample
+#print axioms AQ.Props.C15.declared_content_lengths
+#print axioms AQ.Props.C15.differing_content_length_rejected
+#print axioms AQ.Props.C15.differing_content_length_rejected_all
 #print axioms AQ.Props.C15.fin_after_other_frame_counterexample
 #print axioms AQ.Props.C15.fin_inside_data_frame_counterexample
 #print axioms AQ.Props.C15.trailers_content_length_ignored
